@@ -414,7 +414,7 @@ K("C15.celltext_fragment_dispatch", ["C15", "C03", "C04", "C11"], FRAG, "check_f
 K("S2.is_collinear_exact", ["C09", "C06"], LINE, "check_is_collinear_exact", "util::is_collinear", 
   "on the lattice: true <=> the exact (integer) cross product of the three points is zero (sound and complete)",
   file="util.rs", kmod="k9", timeout=600, timeout_thorough=3600,
-  assumes=["lattice reduced to 8 cells (quick) / 128 cells (thorough): completeness holds for all magnitudes (equal real products round equally), "
+  assumes=["lattice reduced to 8 cells (quick) / 32 cells (thorough; 128 cells did not finish in 3600 s): completeness holds for all magnitudes (equal real products round equally), "
            "soundness needs products below 2^24"])
 B("S1.is_touching_lattice", ["C09", "C06", "C03"], LINE, "bounded_is_touching_lattice", "Line::is_touching / touching_line / contains_point (parry2d Segment::contains_point)",
   "true <=> an end point of one segment lies on the closed segment of the other (exact arithmetic)",
